@@ -1,9 +1,5 @@
 // Contract overlay for unit `clifilter` (C12)
 //@ item ProjectType
-//@ item ProjectType::is_vcs
-//@ header
-pub fn is_vcs(self) -> (r: bool)
-    ensures r == doc_is_vcs(self),
 //@ item IgnoreFile
 //@ item explicit_ignore_files
 //@ header
